@@ -123,14 +123,23 @@ class BitInterp:
                     self.env_bits.pop(name, None)
             elif isinstance(st, ast.Assign) and len(st.targets) == 1 and isinstance(st.targets[0], ast.Subscript):
                 self._store(st.targets[0], st.value, st)
+            elif isinstance(st, ast.AugAssign) and isinstance(st.target, ast.Name) and st.target.id in self.env_bits and \
+                    isinstance(st.op, (ast.BitOr, ast.BitAnd)):
+                # a local partial byte assembled with |= / &= (not the output buffer: nothing depends on old contents)
+                rhs = self._eval(st.value)
+                self.env_bits[st.target.id] = (b_or if isinstance(st.op, ast.BitOr) else b_and)(self.env_bits[st.target.id], rhs)
             elif isinstance(st, ast.AugAssign):
                 raise Unknown(f"augmented store `{norm(st)}`: result would depend on previous buffer contents")
             elif isinstance(st, ast.For):
-                if not (isinstance(st.target, ast.Name) and isinstance(st.iter, ast.Call) and dotted(st.iter.func) == "range"
-                        and len(st.iter.args) == 1 and isinstance(st.iter.args[0], ast.Constant)
-                        and isinstance(st.iter.args[0].value, int) and 0 < st.iter.args[0].value <= 8):
-                    raise Unknown(f"inner loop `{norm(st.iter)}` is not a literal trip count <= 8")
-                for v in range(st.iter.args[0].value):
+                trip = None
+                if isinstance(st.target, ast.Name) and isinstance(st.iter, ast.Call) and dotted(st.iter.func) == "range" and 1 <= len(st.iter.args) <= 3:
+                    try:
+                        trip = list(range(*[ast.literal_eval(a_) for a_ in st.iter.args]))
+                    except (ValueError, SyntaxError, TypeError):
+                        trip = None
+                if trip is None or not 0 < len(trip) <= 8:
+                    raise Unknown(f"inner loop `{norm(st.iter)}` is not a literal range of at most 8 iterations")
+                for v in trip:
                     self.consts[st.target.id] = v
                     self._block(st.body)
                 del self.consts[st.target.id]
@@ -358,7 +367,7 @@ def run(prog: Program, res: Result, tier: str) -> None:
 
         # the template's fields: nbits from the membership guard, the order string from the conditional that defines it
         nb_pred = in_set("nbits")
-        nb_fact = pc.truth(ga, nb_pred)
+        nb_fact = pc.truth(ga, nb_pred, expanded=True)
         nb_vals = nb_pred.values if nb_fact is not None else None
         parts = []
         ord_vals = None
@@ -425,7 +434,7 @@ def run(prog: Program, res: Result, tier: str) -> None:
         wanted = {"dtype": [is_u8(arr_p)], "nbits": [in_set("nbits")], "bitorder": [order_given, order_letter]}
         for gname, preds in wanted.items():
             key = f"{wname}:{gname}"
-            facts = [pc.truth(kc, p) for p in preds]
+            facts = [pc.truth(kc, p, expanded=True) for p in preds]
             if any(f is None for f in facts):
                 res.bad("R4", w, w.node, f"{wname}: no ValueError guard on {gname} protects the kernel call", construct=wname, key=key)
             elif all("ValueError" in (rejection(pc, f) or ()) for f in facts):
@@ -470,7 +479,8 @@ def run(prog: Program, res: Result, tier: str) -> None:
             res.bad("R4", w, kc, f"{wname}: {why}", key=key)
         # no other guard may reject an input the property says is valid
         for g in _raise_guards(w):
-            for e_, pol_ in split(g.test, False):
+            for e_raw, pol_ in split(g.test, False):
+                e_ = flow.expand(e_raw, cfg.node_for(g))
                 # passing the guard requires e_ == pol_
                 known = any(p(e_, pol_) for ps in wanted.values() for p in ps) or in_set("nbits")(e_, pol_)
                 t = norm(e_)
@@ -478,7 +488,9 @@ def run(prog: Program, res: Result, tier: str) -> None:
                     continue
                 key = f"{wname}:extra-guard:{t[:40]}"
                 sizes = isinstance(e_, ast.Compare) and len(e_.ops) == 1 and ".size" in t and "%" not in t
-                ragged = t.replace(" ", "") in (f"{arr_p}.size%bitfact", f"{arr_p}.size%bitfact==0", f"{arr_p}.size%bitfact!=0")
+                rem_ = canon(f"{arr_p}.size % (8 // nbits)")
+                ragged = canon(e_) in (rem_, f"cmp[Eq](0, {rem_})", f"cmp[NotEq](0, {rem_})", canon(f"{arr_p}.size % bitfact"),
+                                       f"cmp[Eq](0, {canon(f'{arr_p}.size % bitfact')})", f"cmp[NotEq](0, {canon(f'{arr_p}.size % bitfact')})")
                 domain = (".ndim" in t) or (buf_p is not None and is_u8(buf_p)(e_, pol_)) or (t == f"{buf_p} is None") or \
                     (isinstance(e_, ast.Call) and dotted(e_.func) == "isinstance")
                 if sizes:
